@@ -630,7 +630,7 @@ func (c *Ctx) isConnIO(ci ssa.CallInstruction, depth int) bool {
 	case "ReadMessage", "Flush", "Write", "ReadFull", "ReadAtLeast":
 		return true
 	}
-	if depth >= 3 || g.Blocks == nil || !c.P.IsLibrary(g) {
+	if depth >= 1 || g.Blocks == nil || !c.P.IsLibrary(g) {
 		return false
 	}
 	for _, cj := range flow.CallInstrs(g) {
@@ -655,6 +655,23 @@ func (c *Ctx) ioFollows(f *ssa.Function, at ssa.Instruction, depth int) bool {
 	}
 	if depth >= 2 {
 		return false
+	}
+	// only a helper that does nothing but arm the deadline stands for "the arming" at its call sites
+	for _, cj := range flow.CallInstrs(f) {
+		name := ""
+		if cj.Common().IsInvoke() {
+			name = cj.Common().Method.Name()
+		} else if o := flow.CalleeObj(cj); o != nil {
+			name = o.Name()
+			if o.Pkg() != nil && o.Pkg().Path() == "time" {
+				continue
+			}
+		}
+		switch name {
+		case "SetDeadline", "SetReadDeadline", "SetWriteDeadline":
+		default:
+			return false
+		}
 	}
 	sites := c.librarySites(f)
 	if len(sites) == 0 {
